@@ -39,6 +39,7 @@ class Triangle(abc.Set):
     """
 
     def __init__(self, cells: Sequence[Cell]) -> None:
+        cells = list(cells)
         if any(not isinstance(cell, Cell) for cell in cells):
             raise TriangleError("Bermuda triangles can only hold `Cell`s")
 
